@@ -755,8 +755,58 @@ def r6_error_unwinding(ctx, rule="C05.R6"):
                    "when the built-in fails, the %s arm does not perform the context operation of the PopStack it "
                    "skips (%s): the state PushStack made stays on the context stack and, after RESUME NEXT, the caller "
                    "runs on the failed built-in's empty variables" % (v, sorted(x.split("::")[-1] for x in missing)))
-    ctx.analysed_units(rule, shrinkers=sorted(x.split("::")[-1] for x in direct))
-    ctx.require(rule, 11)
+    # the same for every other instruction the call templates emit right after the context push (PushStack /
+    # PushStaticStack) and before control reaches the callee: PushRet, the jump.  An arm that can end in an error
+    # there must pop the callee context first - the handler edges only drop argument-collecting states
+    after_push = set()
+    gens = emit.generator_fns(prog)
+    pure = {}
+    for g in gens:
+        evs = emit.events(prog, g)
+        pure[g.id] = [e.instr for e in evs.values()] if evs and all(e.kind == "push" and e.instr for e in evs.values()) else None
+    for g in gens:
+        evs = emit.events(prog, g)
+        for seq in emit.linear_paths(g.body, evs, max_paths=400):
+            armed = False
+            for e in seq:
+                instrs = [e.instr] if e.kind == "push" else (pure.get(e.callee.id) if e.kind == "gen" and e.callee is not None else None)
+                if instrs is None:
+                    armed = False
+                    continue
+                for ins in instrs:
+                    if ins in ("PushStack", "PushStaticStack"):
+                        armed = True
+                    elif ins == "PopStack":
+                        armed = False
+                    elif armed:
+                        after_push.add(ins)
+    if not {"BuiltInSub", "BuiltInFunction", "PushRet"} <= after_push:
+        raise CheckError("%s: instructions emitted after the context push not found (%s)" % (rule, sorted(after_push)))
+    for v in sorted(after_push - {"BuiltInSub", "BuiltInFunction"}):
+        if v not in regions:
+            raise CheckError("interpret_one has no arm for Instruction::%s" % v)
+        region = regions[v]
+        srcs = set()
+        tb = common.try_error_blocks(one.body, region) & region
+        if tb:
+            srcs.add(min(tb))
+        for b in region:
+            for st in one.body.blocks[b]["s"]:
+                r = st.get("r", {})
+                if st["k"] == "assign" and r.get("k") == "agg" and (r.get("adt") or "") == "core::result::Result" and r.get("variant") == "Err":
+                    srcs.add(b)
+        shr = {b for b, t in mir.region_calls(one.body, region) if mir.callee_of(t) in shrinking}
+        entry = sw1.arms[v]
+        exits = {x for b in region for x in one.body.succ(b) if x not in region} | {b for b in region if one.body.term(b)["k"] == "return"}
+        bad = [b for b in srcs if not (one.body.every_path_passes(entry, {b}, shr) or one.body.every_path_passes(b, exits, shr))]
+        ctx.decide(not bad, rule, "%s:%s:error-path-pops-callee-context" % (rule, v), one.loc,
+                   "the arm cannot fail" if not srcs else "every failing path pops the callee context",
+                   "the generator emits %s after the callee's context was pushed (PushStack), and its arm in interpret_one "
+                   "can end in an error without popping that context: after a handled error (RESUME NEXT, ON ERROR RESUME "
+                   "NEXT) the caller runs on the variables of the call that never started, and every later PopStack pops "
+                   "the wrong state" % v)
+    ctx.analysed_units(rule, shrinkers=sorted(x.split("::")[-1] for x in direct), after_context_push=sorted(after_push))
+    ctx.require(rule, 12)
 
 
 def r7_transfer_committed_last(ctx, rule="C05.R7"):
